@@ -20,7 +20,7 @@ RULE = ("Cases: generated tree (single file or directory) x piece length x creat
         "Distinct = distinct canonical case JSON.")
 ASSUMPTIONS = [
     "vf/ref/hashing.py SHA-1 slicing (two formulations) and vf/ref/bencode.py",
-    "file names are valid UTF-8; no symlinks/special files",
+    "file names are valid UTF-8; symbolic links to files and directories inside the tree are generated (the tool follows them: linked content is payload under the link's name); no special files",
 ]
 BUDGET = {
     "quick": {"examples": 650, "workers": 8, "time_cap": 70},
